@@ -670,7 +670,7 @@ func msgCases(c *core.Ctx, emit func(class, desc string, q *pb.QuoteV4)) {
 
 // C09: parse / serialise are exact inverses; the parser accepts exactly the layout.
 func C09(c *core.Ctx) {
-	c.Rule = "byte strings: structurally valid quotes (auth 0..65535, chain 0..4000, extra bytes), every/sampled truncation, boundary values of each size/type field and pairs, header bytes, random mutation; messages: valid, each sub-message nil, each bytes field nil/empty/short/long, RTMR count 0..5, numeric boundary values, protobuf-decoded. non-trivial = input of at least 636 bytes with a valid header (parser reaches the variable part) or a message with all sub-messages present; distinct = distinct inputs"
+	c.Rule = "byte strings: structurally valid quotes (auth 0..65535, chain 0..4000, extra bytes), every/sampled truncation, boundary values of each size/type field and pairs, header bytes, random mutation, and the caller overwriting its buffer between parsing and serialising; messages: valid, each sub-message nil, each bytes field nil/empty/short/long, RTMR count 0..5, numeric boundary values, protobuf-decoded. non-trivial = input of at least 636 bytes with a valid header (parser reaches the variable part) or a message with all sub-messages present; distinct = distinct inputs"
 	rawCases(c, func(class, desc string, raw []byte) {
 		if !c.Wanted() {
 			c.Add(&core.Case{Class: class, SkipModel: true, Impl: core.Ls()})
@@ -695,6 +695,18 @@ func C09(c *core.Ctx) {
 				gt = "HeaderToAbiBytes(parsed) != bytes 0..47"
 			} else if bb, err := abi.TdQuoteBodyToAbiBytes(q.GetTdQuoteBody()); err != nil || !bytes.Equal(bb, raw[48:632]) {
 				gt = "TdQuoteBodyToAbiBytes(parsed) != bytes 48..631"
+			} else {
+				// the parsed quote is a function of the bytes given, not of what the caller does
+				// with its buffer afterwards
+				buf := append([]byte{}, raw...)
+				if q2, err := abi.QuoteToProto(buf); err == nil {
+					for i := range buf {
+						buf[i] ^= 0xff
+					}
+					if out, err := abi.QuoteToAbiBytes(q2); err != nil || !bytes.Equal(out, raw) {
+						gt = "after the caller overwrote its input buffer, serialising the quote parsed from it no longer reproduces the bytes that were parsed"
+					}
+				}
 			}
 		}
 		nt := len(raw) >= 636 && bytes.Equal(raw[0:8], []byte{4, 0, 2, 0, 0x81, 0, 0, 0})
